@@ -408,7 +408,8 @@ def rule_extidx(ctx, py):
     checks = set()
     for n in ast.walk(f):
         if isinstance(n, ast.If) and any(isinstance(b, ast.Raise) for b in n.body):
-            for a, pol in pya.atoms(n.test, False):
+            from .. import pysym
+            for a, pol in pya.atoms(pysym.inline(n.test, f, stop={"nodes", "edge"}), False):     # `i, j = edge.i, edge.j` written out
                 checks.add((a, pol))
     need = [("edge.i < 0", False), ("len(nodes) <= edge.i", False), ("edge.j < 0", False), ("len(nodes) <= edge.j", False)]
     alt = [("edge.i < 0", False), ("self.size() <= edge.i", False), ("edge.j < 0", False), ("self.size() <= edge.j", False)]
